@@ -39,10 +39,11 @@ DecodeOK(ev) ==
        /\ ev.ts = 1                                            \* tostring terminated without a signal
        /\ ev.fmt = GetFormat(Hdr(ev.h))                        \* get_format total
        /\ ev.val \in {0, EINVAL} /\ (ev.val = 0 => Validate(Hdr(ev.h)) = 0)
-  /\ (Mode = "C13" /\ ev.ret >= MinSize /\ ev.ret <= ev.sz /\ ev.ret = pr.consumed) =>   \* accepted: structure, and re-encoding reproduces the bytes
-        /\ Hdr(ev.h) = pr.h
-        /\ ev.relen = ev.ret
-        /\ ev.re = Normalise(ev.b, ev.sz)
+  /\ (Mode = "C13" /\ ev.ret >= MinSize /\ ev.ret <= ev.sz) =>      \* accepted (whatever length the implementation says it consumed):
+        /\ ev.relen = ev.ret                                          \* re-encoding gives back exactly that many bytes ...
+        /\ (ev.ret = pr.consumed =>                                   \* ... and, where the length is the header's, the structure and the bytes
+              /\ Hdr(ev.h) = pr.h
+              /\ ev.re = Normalise(ev.b, ev.sz))
 
 TraceInit == ti = 1
 TraceNext ==
